@@ -228,7 +228,9 @@ def generate_xy(rng, i):
     window = rng.choice([1, 2, 3, 5])
     kw = {"window": window, "stride": rng.choice([None, 2]) if window > 1 else None, "spread": rng.choice([0, 0.001]),
           "transformer": rng.choice([None, "z-score", "yeo-johnson"]), "clip": rng.choice([5.0, 2.0]), "steps_delay": rng.choice([0, 1]),
-          "margin": 0.0, "calendar": rng.choice(["NYSE", "24/7"]), "transformer_end": tb["dates"][rng.randint(n // 4, kcut)]}
+          "margin": 0.0, "calendar": rng.choice(["NYSE", "24/7"]),
+          # the transformer / reward scale are fitted up to a date <= t; often exactly t (rows right after it are rewritten)
+          "transformer_end": tb["dates"][kcut if rng.random() < 0.4 else rng.randint(n // 4, kcut)]}
     ny = len(tb["ycols"])
     acts = [[round(rng.uniform(-0.3, 0.5), 4) for _ in range(ny)] for _ in range(7)]
     return {"kind": "xy", "tables": tb, "kwargs": kw, "fold": None, "actions": acts, "np_seed": rng.randrange(2 ** 31),
